@@ -31,6 +31,12 @@ def _last_quote(c, ep, contract, cutoff):
 
 def harness(c, cfg):
     ep = Episode(c, cfg)
+    for episode in range(cfg.get("episodes", 1)):
+        _one_episode(c, cfg, ep)
+        c.reached("episode%d" % (episode + 1))
+
+
+def _one_episode(c, cfg, ep):
     env = ep.env
     d = cfg.get("delay", 0)
     env.reset()
@@ -112,6 +118,8 @@ def configs(tier):
     add(N=4, M=0, delay=1, latency="zero", space="discrete")
     add(N=4, M=0, delay=0, latency="zero", space="discrete")
     add(N=4, M=1, delay=1, latency="sym", spread=2.0, free_kinds=["quote"], insertion="free-first")
+    add(N=3, M=1, delay=0, latency="sym", spread=2.0, free_kinds=["quote"], episodes=2)     # a second episode too
+    add(N=4, M=1, delay=1, latency="sym", spread=2.0, free_kinds=["quote"], episodes=2)
     # longer delays need a longer grid; without extra quotes these are cheap
     add(N=6, M=0, delay=3, latency="zero", spread=2.0)
     add(N=6, M=0, delay=3, latency="zero", space="discrete")
@@ -129,7 +137,7 @@ def configs(tier):
 ANCHORS = ["env.py:TradingEnv.step", "env.py:TradingEnv.reset", "spaces.py:PortfolioSpace.null_action",
            "spaces.py:PortfolioSpace.make_rebalancing_request", "transmitter.py:Transmitter._create_partitions",
            "env.py:TradingEnv._process_latent_events"]
-EXPECT_REACH = ["episode"]
+EXPECT_REACH = ["episode", "episode2"]
 ASSUMPTIONS = _A + ["bid/ask of every quote differ by a concrete spread of 2 so that the execution side is visible"]
 BOUNDS = {"quick": "grid of 4 timesteps (3 executions), <= 1 extra quote placed by the solver around the latency "
                    "boundary, delays 0-2, Box and Discrete spaces; grid of 6 without extra quotes for delays 3-4",
